@@ -261,6 +261,9 @@ func replayMigrate(c *core.Ctx, lfsBin string, b *behaviour, idx int) (*core.Vio
 
 func init() {
 	registry["C12"] = func(c *core.Ctx, replay string) {
+		if replayBehaviourOnly(c, replay, replayMigrate, "model_checking") {
+			return
+		}
 		c.Level = "model_checking"
 		lfs := c.BuildLFS()
 		cfg, budget := "Migrate_q.cfg", 260
